@@ -100,7 +100,9 @@ def data_params(draw, rep=None, structure=None, max_n=300):
             'containers': draw(st.sampled_from(['list', 'array'])), 'np_seed': draw(st.integers(0, 2**32 - 1)),
             # history of the generator object: 0 = fresh object; otherwise the object has already produced a data set for the same
             # sizes/structure/seed but a value range shifted by this much (all argument constraints are translation-invariant)
-            'prior_shift': draw(st.sampled_from([0, 0, 13, -5, 1000]))}
+            'prior_shift': draw(st.sampled_from([0, 0, 13, -5, 1000])),
+            # the earlier call was given the SAME structure object, whose value lists were edited in place since
+            'same_structure_object': draw(st.booleans())}
 
 
 @st.composite
@@ -140,15 +142,16 @@ def materialize_structure(case):
     if s is None:
         return None
     if case['containers'] == 'list':
-        return [[ix, attrs] for ix, attrs in s]
+        import copy
+        return [[copy.deepcopy(ix), copy.deepcopy(attrs)] for ix, attrs in s]      # the caller's own objects (never the case's)
     out = []
     for ix, attrs in s:
         ix2 = np.array(ix) if isinstance(ix, list) else ix
         if isinstance(attrs, list):
             attrs2 = [np.array(attrs[0]), np.array(attrs[1])] if isinstance(attrs[0], list) else np.array(attrs)
         else:
-            attrs2 = attrs
-        out.append((ix2, attrs2))
+            attrs2 = np.int64(attrs)        # a cardinality taken from numpy (np.unique(...).size, df.nunique(), an int array row)
+        out.append([ix2, attrs2])
     return out
 
 
@@ -162,19 +165,37 @@ def cut(kind, fn, *a, **k):
         raise Violation(f'code under test raised {type(e).__name__}: {e}\n{tb}', kind=kind + '/exception') from e
 
 
+def _edit_in_place(structure, delta):
+    """Shift every explicit value of the structure by delta WITHOUT replacing the value containers (lists / arrays are edited in
+    place); cardinality entries are replaced inside their (list) entry."""
+    for entry in structure:
+        attrs = entry[1]
+        if isinstance(attrs, (list, np.ndarray)) and len(attrs) and isinstance(attrs[0], (list, np.ndarray)):
+            vals = attrs[0]
+            vals[:] = [int(v) + delta for v in vals] if isinstance(vals, list) else vals + delta
+        elif isinstance(attrs, (list, np.ndarray)):
+            attrs[:] = [int(v) + delta for v in attrs] if isinstance(attrs, list) else attrs + delta
+
+
 def call_generate(cc, case, np_seed, seed=None, kind='C19/domain'):
     shift = int(case.get('prior_shift') or 0)
+    structure = materialize_structure(case)
     if shift:
         np.random.seed((np_seed + 17) % 2**32)
+        prior_structure = structure if case.get('same_structure_object') and structure is not None else materialize_structure(case)
+        if structure is not None and prior_structure is structure:
+            _edit_in_place(structure, 7)          # the caller's structure held other values at the time of the earlier call
         cut(kind, cc.generate_data,
             n_features=case['n_features'], n_samples=case['n_samples'], cardinality=case['cardinality'],
-            structure=materialize_structure(case), ensure_rep=case['ensure_rep'], random_values=case['random_values'],
+            structure=prior_structure, ensure_rep=case['ensure_rep'], random_values=case['random_values'],
             low=case['low'] + shift, high=case['high'] + shift, k=case['k'], seed=case['seed'] if seed is None else seed)
+        if structure is not None and prior_structure is structure:
+            _edit_in_place(structure, -7)         # ... and was edited in place (same objects) before this call
     np.random.seed(np_seed)
     return cut(
         kind, cc.generate_data,
         n_features=case['n_features'], n_samples=case['n_samples'], cardinality=case['cardinality'],
-        structure=materialize_structure(case), ensure_rep=case['ensure_rep'], random_values=case['random_values'],
+        structure=structure, ensure_rep=case['ensure_rep'], random_values=case['random_values'],
         low=case['low'], high=case['high'], k=case['k'], seed=case['seed'] if seed is None else seed)
 
 
